@@ -3,6 +3,7 @@ package main
 // C20 — ill-formed control flow and name clashes are rejected at the offending line.
 
 import (
+	"go/token"
 	"fmt"
 	"go/types"
 	"strings"
@@ -416,6 +417,52 @@ func c20c(c *Ctx) {
 					guard = true
 				}
 			}
+			// ... and a second default always ends in an error: the branch on which a default
+			// already exists cannot go on to the next case or to a successful return
+			{
+				rejected := true
+				heads := loopHeaders(fn)
+				instrs(fn, func(in ssa.Instruction) {
+					ifi, ok := in.(*ssa.If)
+					if !ok {
+						return
+					}
+					bo, ok := ifi.Cond.(*ssa.BinOp)
+					if !ok || (bo.Op != token.EQL && bo.Op != token.NEQ) {
+						return
+					}
+					x := bo.X
+					if isNilConst(x) {
+						x = bo.Y
+					} else if !isNilConst(bo.Y) {
+						return
+					}
+					ld, ok := x.(*ssa.UnOp)
+					if !ok {
+						return
+					}
+					if _, _, f, ok := fieldAddrOf(ld.X); !ok || f != "DefaultCase" {
+						return
+					}
+					nonNil := ifi.Block().Succs[0]
+					if bo.Op == token.EQL {
+						nonNil = ifi.Block().Succs[1]
+					}
+					h := heads[ifi.Block()]
+					if h == nil {
+						return // the "no cases at all" test after the loop
+					}
+					if _, goesOn := existsPath(pathQuery{from: point{nonNil, 0}, target: func(y ssa.Instruction) bool {
+						if ret, ok := y.(*ssa.Return); ok {
+							return isSuccessReturn(ret)
+						}
+						return h != nil && y.Block() == h
+					}}); goesOn {
+						rejected = false
+					}
+				})
+				c.Check(rejected, name+"/second-default/always-an-error", c.W.Pos(st.Pos()), "a second default always ends in an error", "where a default case already exists the parser can go on (to the next case or to a successful return): a second 'default' would be accepted and one of the two silently lost")
+			}
 			c.Check(guard, name+"/second-default/check-before-insert", c.W.Pos(st.Pos()), "DefaultCase set only when it was nil", "DefaultCase is stored without testing that no default was seen before")
 			errOK := false
 			for _, r := range returnsOf(fn) {
@@ -595,6 +642,22 @@ func c20d(c *Ctx) {
 					c.Bad(name+"/movement-names/every-movement", pos, "some movements are not entered into the name set (an iteration can reach "+c.nearPos(w)+" without the insertion)")
 				} else {
 					c.OK(name+"/movement-names/every-movement", pos, "every movement statement is entered into the name set")
+				}
+				{
+					okLoc := false
+					for _, r := range returnsOf(f) {
+						if isSuccessReturn(r) || !hasLit(c.mustLits(f, r.Block()), "+"+mapT+"["+key+"]#1") {
+							continue
+						}
+						if call, ok := r.Results[len(r.Results)-1].(*ssa.Call); ok && len(call.Call.Args) > 0 {
+							got := c.term(f, call.Call.Args[0])
+							// at one of the two movement statements involved: the one found in the set, or the one being checked
+							if strings.HasSuffix(got, ".Token") && (strings.Contains(got, mapT+"[") || strings.Contains(got, "MovementStatement")) {
+								okLoc = true
+							}
+						}
+					}
+					c.Check(okLoc, name+"/movement-names/error-at-a-movement", pos, "a movement name clash is reported at one of the two movements", "the movement name clash error is not located at the token of one of the two movement statements involved")
 				}
 				c.Check(!bypass, name+"/movement-names/not-bypassed", pos, "no successful return without the movement clash check", "ParseProgram can return successfully without having run the movement name clash check (whether a clash is reported would depend on what else is in the file)")
 				c.Check(after, name+"/movement-names/after-hoisting", pos, "the clash check runs after all statements were parsed", "the movement clash check can run before parsing is complete")
